@@ -803,7 +803,10 @@ class G:
                 s += ","
             return br[0] + s + br[1]
         if r == 6:
-            return "{" + ", ".join("%s: %s" % (k, self.pattern(depth + 2, False)) for k in self.c([["'k'"], ["'a'", "1"], []])) + self.c(["", ""]) + "}"
+            items = ["%s: %s" % (k, self.pattern(depth + 2, False)) for k in self.c([["'k'"], ["'a'", "1"], []])]
+            if capture_ok and self.b(1, 3):
+                items.append("**" + self.c(["rest", "others"]))  # also as the only element: {**rest}
+            return "{" + ", ".join(items) + self.c(["", ""]) + "}"
         if r == 7:
             return self.c(["Point", "a.Cls", "int"]) + "(" + self.c(["", "1", "x=1", "0, y=2", "_"]) + ")"
         if r == 8:
